@@ -59,6 +59,41 @@ func (r *schedReader) Read(p []byte) (int, error) {
 
 func (r *schedReader) unread() []byte { return r.data[r.pos:] }
 
+// Delivery is a compact, replayable description of how a stream reaches the scanner; it lets
+// every stream-level check (C02, C07, C08) also run under non-trivial reader behaviour.
+type Delivery struct {
+	Chunk       int  // 0: everything in one Read; otherwise fixed-size chunks
+	EOFWithData bool // io.EOF returned together with the last data
+}
+
+func genDelivery(t *rapid.T) Delivery {
+	var d Delivery
+	switch rapid.IntRange(0, 5).Draw(t, "deliveryKind") {
+	case 0, 1:
+	case 2:
+		d.EOFWithData = true
+	case 3:
+		d.Chunk = rapid.SampledFrom([]int{1, 7, 64, 4096}).Draw(t, "deliveryChunk")
+	default:
+		d.Chunk = rapid.SampledFrom([]int{1, 3, 64, 1000, 16384}).Draw(t, "deliveryChunk")
+		d.EOFWithData = true
+	}
+	return d
+}
+
+func (d Delivery) reader(x []byte) io.Reader {
+	if d.Chunk == 0 && !d.EOFWithData {
+		return bytes.NewReader(x)
+	}
+	s := Sched{EOFWithData: d.EOFWithData}
+	if d.Chunk > 0 {
+		for i := 0; i*d.Chunk < len(x) && i < 20000; i++ {
+			s.Chunks = append(s.Chunks, d.Chunk)
+		}
+	}
+	return newSchedReader(x, s)
+}
+
 type outcome struct {
 	snap   *stack.Snapshot
 	prefix []byte
